@@ -91,26 +91,16 @@ theorem afterEval_step2 (u : User α ε) (c : Cfg α) (s s' : St α) (f0Old : α
     · simp at h
     · rename_i r hr
       simp only [pure, Except.pure] at h
-      generalize hst : stopTests c _ r.f0Old = st at h
-      obtain ⟨s1, stop1⟩ := st
-      have key : s1.x = s.x ∧ s1.sf.log = s.sf.log ++ [Call.mk .update s.x] ∧
-          s1.cbStates = s.cbStates := by
-        unfold stopTests at hst
-        split at hst
-        · injection hst with h1 _; subst h1; exact ⟨rfl, rfl, rfl⟩
-        · split at hst <;> (injection hst with h1 _; subst h1; exact ⟨rfl, rfl, rfl⟩)
-      have hlog : LogExt (PointOk c) s.sf.log s1.sf.log := by
-        rw [key.2.1]; exact LogExt.single _ _ (Or.inr (Or.inr hi.x_in))
-      cases stop1 with
-      | true =>
-        simp only [if_true] at h
-        injection h with h; injection h with h1 _; subst h1
-        exact ⟨by rw [key.1]; exact hi.x_in, hlog, fun cb hcb => Or.inl (by rw [key.2.2] at hcb; exact hcb)⟩
-      | false =>
-        simp only [Bool.false_eq_true, if_false] at h
-        injection h with h; injection h with h1 _; subst h1
-        exact ⟨by simp only; rw [key.1]; exact hi.x_in, by simpa using hlog,
-          fun cb hcb => Or.inl (by simp only at hcb; rw [key.2.2] at hcb; exact hcb)⟩
+      injection h with h
+      have key : s'.x = s.x ∧ s'.sf.log = s.sf.log ++ [Call.mk .update s.x] ∧
+          s'.cbStates = s.cbStates := by
+        unfold stopTests at h
+        split at h
+        · injection h with h1 _; subst h1; exact ⟨rfl, rfl, rfl⟩
+        · split at h <;> (injection h with h1 _; subst h1; exact ⟨rfl, rfl, rfl⟩)
+      exact ⟨by rw [key.1]; exact hi.x_in,
+        by rw [key.2.1]; exact LogExt.single _ _ (Or.inr (Or.inr hi.x_in)),
+        fun cb hcb => Or.inl (by rw [key.2.2] at hcb; exact hcb)⟩
   · simp only [pure, Except.pure] at h
     injection h with h
     have key : s'.x = s.x ∧ s'.sf.log = s.sf.log ∧ s'.cbStates = s.cbStates := by
@@ -184,11 +174,8 @@ theorem iterStep_step2 (u : User α ε) (o : Oracles α δ) (c : Cfg α) (hctx :
           simp only [pure, Except.pure] at h
           injection h with h; injection h with h1 _; subst h1
           have i2 := (st1.trans st2).inv hi
-          have i2' : Inv2 c { s1 with X := (updateMats s1.x s1.g s1.X s1.G c.maxcor s1.mats c.epsSY).1,
-                                      G := (updateMats s1.x s1.g s1.X s1.G c.maxcor s1.mats c.epsSY).2.1,
-                                      mats := (updateMats s1.x s1.g s1.X s1.G c.maxcor s1.mats c.epsSY).2.2.1 } :=
-            ⟨i2.x_in, i2.log, i2.cbs⟩
-          have st3 := doCallback_step2 u c _ s2 i2' hs2
+          have i2' : Inv2 c (memStep c s1) := ⟨i2.x_in, i2.log, i2.cbs⟩
+          have st3 := doCallback_step2 u c (memStep c s1) s2 i2' hs2
           have st12 := st1.trans st2
           exact ⟨st3.x_in, LogExt.trans st12.log st3.log,
             fun cb hcb => (st3.cbs cb hcb).elim (fun h' => st12.cbs cb h') Or.inr⟩
